@@ -180,3 +180,28 @@ def int_or_bool(x):
     if isinstance(x, int):
         return "int"
     return "other"
+
+
+def max_of_seq(xs):
+    return (max(xs), min(xs), max(x * 2 for x in xs))
+
+
+def ifexp_in_comp(xs, k):
+    return [None if x == k else x + 1 for x in xs]
+
+
+def dictcomp_get(xs, k):
+    d = {x: x * 10 for x in xs}
+    return (d.get(k), k in d, len(xs))
+
+
+def del_tail(xs, k):
+    ys = list(xs)
+    del ys[k:]
+    return ys
+
+
+def static_ifexp(a):
+    import sys
+    m = 2 if sys.version_info >= (3, 10) else 1
+    return a * m
